@@ -328,7 +328,9 @@ func (ip *Inode) Write(atxn *alloctxn.AllocTxn, offset uint64,
 		}
 		if byteoff == 0 && nbytes == disk.BlockSize { // block overwrite?
 			addr := atxn.Super.Block2addr(blkno)
-			atxn.Op.OverWrite(addr, common.NBITBLOCK, data[0:nbytes])
+			// the journal keeps the slice; don't hand it the caller's buffer
+			blk := util.CloneByteSlice(data[0:nbytes])
+			atxn.Op.OverWrite(addr, common.NBITBLOCK, blk)
 		} else {
 			buffer := atxn.ReadBlock(blkno)
 			for b := uint64(0); b < nbytes; b++ {
